@@ -147,23 +147,64 @@ static void call_fresh(uint64_t* r, const uint64_t* a, const uint64_t* b) {
 #endif
 }
 
+#ifdef __CPROVER__
+int vf_marker; /* assigned once when the warm-up calls are over: the write-set analysis (vf.alg.uf) looks at what is assigned afterwards */
+#define VF_MARK() (vf_marker = 1)
+#else
+#define VF_MARK() ((void)0)
+#endif
+
+#if defined(VF_TSAN_REPLAY) && !defined(__CPROVER__)
+/* native confirmation of a shared write after warm-up: the same post-warm-up calls from two real threads under ThreadSanitizer */
+#include <pthread.h>
+typedef struct {
+  const uint64_t *a1, *b1, *r0;
+} vf_targ;
+static void* vf_tsan_worker(void* arg) {
+  const vf_targ* t = (const vf_targ*)arg;
+  uint64_t* r = (uint64_t*)malloc(2 * M1 * sizeof(uint64_t));
+  for (int it = 0; it < 200; ++it) {
+    for (unsigned i = 0; i < 2 * M1; ++i) r[i] = t->r0[i];
+#ifdef SAMEDIM_OTHER_PARAMS
+    call_simple(M1, D2, B2, r, t->a1, t->b1);
+#endif
+    call_simple(M1, D1, B1, r, t->a1, t->b1);
+  }
+  free(r);
+  return 0;
+}
+#endif
+
 void h_simple(void) {
   vf_cpu_avx = AVX;
-  /* operands for the three calls and a common initial destination for the compared pair */
+  /* operands for the calls and a common initial destination for the compared pair */
   uint64_t* a1 = vf_alloc_words(2 * M1);
   uint64_t* b1 = vf_alloc_words(2 * M1);
   uint64_t* a2 = vf_alloc_words(2 * M2);
   uint64_t* b2 = vf_alloc_words(2 * M2);
   uint64_t* r1 = vf_alloc_words(2 * M1);
   uint64_t* r2 = vf_alloc_words(2 * M2);
-  uint64_t* r3 = vf_alloc_words_raw(2 * M1);
-  uint64_t* rf = vf_alloc_words_raw(2 * M1);
   uint64_t* r0 = vf_alloc_words(2 * M1); /* previous contents of the destination (matters for addmul) */
+  call_simple(M1, D1, B1, r1, a1, b1); /* warm-up for dimension M1 */
+  call_simple(M2, D2, B2, r2, a2, b2); /* warm-up for dimension M2 */
+  VF_MARK();                           /* the documented warm-up protocol is complete: one call per dimension */
+#if defined(VF_TSAN_REPLAY) && !defined(__CPROVER__)
+  {
+    vf_targ t = {a1, b1, r0};
+    pthread_t th[2];
+    for (int k = 0; k < 2; ++k) pthread_create(&th[k], 0, vf_tsan_worker, &t);
+    for (int k = 0; k < 2; ++k) pthread_join(th[k], 0);
+  }
+#endif
+  uint64_t* r3 = vf_alloc_words_raw(2 * M1); /* destinations of the later calls are allocated after the marker */
+  uint64_t* rf = vf_alloc_words_raw(2 * M1);
   for (unsigned i = 0; i < 2 * M1; ++i) r3[i] = rf[i] = r0[i];
-  call_simple(M1, D1, B1, r1, a1, b1); /* warm-up for (M1,P1) */
-  call_simple(M2, D2, B2, r2, a2, b2); /* something else in between */
 #ifdef SAMEDIM_OTHER_PARAMS
-  call_simple(M1, D2, B2, r1, a1, b1); /* same dimension, other divisor / bound: the cache key must include them */
+  {
+    uint64_t* r4 = vf_alloc_words_raw(2 * M1);
+    for (unsigned i = 0; i < 2 * M1; ++i) r4[i] = r0[i];
+    call_simple(M1, D2, B2, r4, a1, b1); /* same dimension, other divisor / bound: the cache key must include them */
+  }
 #endif
   call_simple(M1, D1, B1, r3, a1, b1); /* the call under test */
   call_fresh(rf, a1, b1);
@@ -176,3 +217,110 @@ void h_simple(void) {
 #endif
   VF_REACH();
 }
+
+/* ---- C12: call-granularity interleavings of two threads over the thread-local caches (-DTHREADS).
+ * Under CBMC the library is built with -DVF_TLS_EMUL: every `static __thread T x` is one slot per emulated thread, selected by vf_tid
+ * (vf.core TLS rewrite; cbmc's sequential mode gives thread-local objects a single instance).  Natively the same history runs on two
+ * real threads (real TLS), handed over call by call.
+ *   history: (TA, PA) (TB, PB) (T0, P1), the last call compared with a freshly built table for P1 = (M1, D1, B1); P2 = (M1, D2, B2)
+ *   -DTA= -DTB= thread of the first / second call   -DPA= -DPB= parameter set (1|2) of the first / second call */
+#ifdef THREADS
+#ifndef TA
+#define TA 0
+#endif
+#ifndef TB
+#define TB 1
+#endif
+#ifndef PA
+#define PA 2
+#endif
+#ifndef PB
+#define PB 1
+#endif
+typedef struct {
+  int dlog;
+  unsigned bnd;
+  uint64_t* r;
+  const uint64_t *a, *b;
+} vf_call;
+static void vf_do_call(vf_call* c) { call_simple(M1, c->dlog, c->bnd, c->r, c->a, c->b); }
+#ifdef __CPROVER__
+extern unsigned vf_tid;
+static void vf_run_on(unsigned tid, vf_call* c) {
+  vf_tid = tid;
+  vf_do_call(c);
+}
+static void vf_threads_start(void) {}
+static void vf_threads_stop(void) {}
+#else
+#include <pthread.h>
+static pthread_mutex_t vf_mu = PTHREAD_MUTEX_INITIALIZER;
+static pthread_cond_t vf_cv = PTHREAD_COND_INITIALIZER;
+static vf_call* vf_slot[2];
+static int vf_quit;
+static pthread_t vf_th[2];
+static void* vf_worker(void* arg) {
+  unsigned me = (unsigned)(uintptr_t)arg;
+  pthread_mutex_lock(&vf_mu);
+  for (;;) {
+    while (!vf_slot[me] && !vf_quit) pthread_cond_wait(&vf_cv, &vf_mu);
+    if (vf_slot[me]) {
+      vf_do_call(vf_slot[me]);
+      vf_slot[me] = 0;
+      pthread_cond_broadcast(&vf_cv);
+    } else
+      break;
+  }
+  pthread_mutex_unlock(&vf_mu);
+  return 0;
+}
+static void vf_threads_start(void) {
+  for (unsigned k = 0; k < 2; ++k) pthread_create(&vf_th[k], 0, vf_worker, (void*)(uintptr_t)k);
+}
+static void vf_threads_stop(void) {
+  pthread_mutex_lock(&vf_mu);
+  vf_quit = 1;
+  pthread_cond_broadcast(&vf_cv);
+  pthread_mutex_unlock(&vf_mu);
+  for (unsigned k = 0; k < 2; ++k) pthread_join(vf_th[k], 0);
+}
+static void vf_run_on(unsigned tid, vf_call* c) {
+  pthread_mutex_lock(&vf_mu);
+  vf_slot[tid] = c;
+  pthread_cond_broadcast(&vf_cv);
+  while (vf_slot[tid]) pthread_cond_wait(&vf_cv, &vf_mu);
+  pthread_mutex_unlock(&vf_mu);
+}
+#endif
+
+void h_simple_threads(void) {
+  vf_cpu_avx = AVX;
+  uint64_t* a1 = vf_alloc_words(2 * M1);
+  uint64_t* b1 = vf_alloc_words(2 * M1);
+  uint64_t* aa = vf_alloc_words(2 * M1);
+  uint64_t* ab = vf_alloc_words(2 * M1);
+  uint64_t* r0 = vf_alloc_words(2 * M1);
+  uint64_t* ra = vf_alloc_words_raw(2 * M1);
+  uint64_t* rb = vf_alloc_words_raw(2 * M1);
+  uint64_t* r3 = vf_alloc_words_raw(2 * M1);
+  uint64_t* rf = vf_alloc_words_raw(2 * M1);
+  for (unsigned i = 0; i < 2 * M1; ++i) ra[i] = rb[i] = r3[i] = rf[i] = r0[i];
+  vf_call ca = {PA == 1 ? D1 : D2, PA == 1 ? B1 : B2, ra, aa, b1};
+  vf_call cb = {PB == 1 ? D1 : D2, PB == 1 ? B1 : B2, rb, ab, b1};
+  vf_call c3 = {D1, B1, r3, a1, b1};
+  vf_threads_start();
+  vf_run_on(TA, &ca);
+  vf_run_on(TB, &cb);
+  vf_run_on(0, &c3); /* the call under test, on thread 0 */
+  vf_threads_stop();
+  call_fresh(rf, a1, b1);
+  for (unsigned i = 0; i < 2 * M1; ++i) {
+    VF_OUT[i] = r3[i];
+    VF_OUT2[i] = rf[i];
+  }
+#ifndef __CPROVER__
+  for (unsigned i = 0; i < 2 * M1; ++i) VF_ASSERT(r3[i] == rf[i], "a call returns the bits it returns alone, whatever other threads called in between");
+#endif
+  VF_REACH();
+}
+#endif
